@@ -27,6 +27,11 @@ CHECKS = {
    "Ground truth is the generator's own bookkeeping; empty sequences and names with a double quote are outside the domain.",
    "property-based testing (rapid), oracle = generator ground truth + round trip",
    "DESIGN.md 3/C19"),
+ "C14": ("exploration",
+   "Model-based (stateful) property testing of LRU, FIFO, Random (plain and StatsRecorder-wrapped): every history up to length 4 (thorough 5) over a 22-operation alphabet is enumerated exhaustively, plus rapid histories of up to 40 operations; after every operation Len/Cap/Peek of all bases, the block identity returned by Get, the eviction choice (unused first, then oldest for LRU/FIFO) and the effect and termination of Resize/Drop/Free are compared with a reference model that follows the reader's ownership rule (only blocks handed back by Put may be overwritten). Concurrent histories of 2-4 goroutines are checked for linearizability with porcupine against the same contract; concurrent StatsRecorder counters are compared with call totals.",
+   "Goroutine schedules of the concurrent part are sampled by real parallel execution, not enumerated; a hang is a 5 s watchdog plus a two-snapshot deadlock signature. Needs the verif-tagged Block factory hook in package bgzf.",
+   "stateful model-based property testing (exhaustive short histories + rapid) with a reference model; porcupine linearizability check of generated concurrent histories",
+   "DESIGN.md 3/C14"),
 }
 
 NOT_YET = {}
